@@ -67,6 +67,9 @@ func NewSecureAsk[Pub any](m map[string]DynSecureAskSwarm[Pub]) p2p.SecureAskSwa
 		ma.swarms[name] = s
 		msec[name] = s
 	}
+	ms.onClose = func() {
+		ma.asks.CloseWithError(p2p.ErrClosed)
+	}
 	ctx := context.Background()
 	go func() {
 		if err := ms.recvLoops(ctx); err != nil && !errors.Is(err, p2p.ErrClosed) {
@@ -86,6 +89,7 @@ type multiSwarm struct {
 	addrSchema AddrSchema
 	swarms     map[string]DynSwarm
 	tells      swarmutil.TellHub[Addr]
+	onClose    func()
 }
 
 func newMultiSwarm(m map[string]DynSwarm) *multiSwarm {
@@ -168,6 +172,9 @@ func (mt *multiSwarm) Close() error {
 		}
 	}
 	mt.tells.CloseWithError(p2p.ErrClosed)
+	if mt.onClose != nil {
+		mt.onClose()
+	}
 	return err
 }
 
